@@ -193,6 +193,16 @@ claim('C22',
       'function family (10 shells). One defect found and fixed (points left outside the BZ on skewed lattices).',
       'DESIGN.md 3/C22')
 
+claim('C21',
+      'Bounded symbolic verification: real Crystal.jumpnetwork / jumpnetwork2lattice executed with a SYMBOLIC cutoff and a SYMBOLIC '
+      'obstruction distance (scalar and per-species list); each comparison forks under solver control so every path is one interval between '
+      'consecutive shell / path distances; per path the network equals the harness\' independent enumeration (membership of every candidate '
+      'jump decided by z3 from |dx|<cutoff and not obstructed), holds each jump once, is closed under the space group and reversal, and '
+      'its lattice form encodes the same jumps.',
+      'Crystals/species enumerated; cutoff and distance over stated intervals; guard bands 1e-6 (shells, strict <) and 1e-4 (path '
+      'distances, isclose); independent enumeration over a +-5 cell box.',
+      'DESIGN.md 3/C21')
+
 na('C01', 'exact oracle is an infinite-state pair Markov chain reached through Brillouin-zone quadrature, LAPACK and hyp1f1/expi; '
           'agreement only to integration accuracy: no algebraic statement a solver can decide (DESIGN 5)')
 na('C06', 'identities hold only for the true lattice Green function of the omega0 network (numerical k-space integration); '
